@@ -195,6 +195,8 @@ class Driver:
             what = str(rng.choice(["trim", "filter", "detrend", "taper", "orient"]))
             if what == "trim" and rec.ns.n_samples < 12:
                 what = "detrend"
+            if what == "filter" and rec.ns.n_samples < 40:      # sosfiltfilt needs more samples than its padding (33)
+                what = "taper"
 
             def f():
                 with warnings.catch_warnings():
